@@ -260,6 +260,12 @@ class SAMIReader(BaseReader):
             if not result:
                 return
             tag_text = result.groups()[0]
+            rest = tag[result.end():]
+            if rest.strip():
+                # the text is wrapped over several source lines: keep all
+                # its words; a line end with its indentation is white space
+                tag_text = re.sub(r'[\n\r]+\s*$', '', tag_text + rest)
+                tag_text = re.sub(r'\s*[\n\r]+\s*', ' ', tag_text)
             self.line.append(CaptionNode.create_text(tag_text, inherit_from))
         # convert line breaks
         elif tag.name == 'br':
